@@ -158,6 +158,9 @@ func (fi *FuncInfo) callMayKill(call ssa.CallInstruction, a ssa.Value, kc killCl
 		_ = b
 		return false // len, cap, append, copy, … never write struct fields or cells (copy writes elements only)
 	}
+	if privateLocal(a) {
+		return false // a field of a local struct whose address never leaves this function
+	}
 	callees := fi.W.CalleesOf(call)
 	known := len(callees) > 0
 	if cc.IsInvoke() && !known {
@@ -456,4 +459,54 @@ func (fi *FuncInfo) valueAt(addr ssa.Value, key string, at ssa.Instruction, self
 		// a killed nearest candidate means farther ones are killed too, unless the killer lies before it; keep scanning
 	}
 	return nil
+}
+
+// privateLocal: a is &L.f (possibly nested) for a local variable L whose
+// address is used only to load, store and take such field addresses — no call,
+// closure or pointer copy can reach it, so no callee can write it.
+func privateLocal(a ssa.Value) bool {
+	fa, ok := a.(*ssa.FieldAddr)
+	if !ok {
+		return false
+	}
+	base := fa.X
+	for {
+		if f2, ok := base.(*ssa.FieldAddr); ok {
+			base = f2.X
+			continue
+		}
+		break
+	}
+	al, ok := base.(*ssa.Alloc)
+	if !ok {
+		return false
+	}
+	var private func(v ssa.Value, d int) bool
+	private = func(v ssa.Value, d int) bool {
+		refs := v.Referrers()
+		if refs == nil || d > 4 {
+			return false
+		}
+		for _, r := range *refs {
+			switch x := r.(type) {
+			case *ssa.Store:
+				if x.Addr != v {
+					return false // the address itself is stored somewhere
+				}
+			case *ssa.UnOp:
+				if x.Op != token.MUL {
+					return false
+				}
+			case *ssa.FieldAddr:
+				if !private(x, d+1) {
+					return false
+				}
+			case *ssa.DebugRef:
+			default:
+				return false
+			}
+		}
+		return true
+	}
+	return private(al, 0)
 }
